@@ -23,16 +23,29 @@ RULE = ('families: connect = op history on a fresh Headers object (valid extensi
         'cross-check of get_next_block_target; mainnet = 20 real headers accepted, every single-field alteration rejected; '
         'cut = header file truncated at a byte offset then reopened; overwrite = stored headers above the checkpoint damaged '
         '(whole/partial, random/zero/foreign-valid) at first/interior/tip-1/tip for tail lengths covering every residue mod 36. '
+        'replay = after a valid fork that ends below the stored length, the headers of the replaced branch are sent again at their old '
+        'heights (alone from the fork end, behind the stored fork tip, followed by a header mined on top of them), mixed with continuations of '
+        'the fork and further shorter forks; chunks = a class with 4 generated checkpoints: first run fetches some chunks (tip-down background '
+        'and on-demand look-ups below it, so holes stay above held chunks), the file may then be cut at a byte inside the checkpointed region, '
+        'restart: every chunk regarded as held equals the checkpointed chunk, headers served with an honest server attached are the true ones, '
+        'a valid batch on top of the checkpointed region is stored, second restart; nearlink = a header mined to be valid except for one bit of its '
+        'previous-block hash, for each of the 32 bytes of the field. '
         'distinct = hash(family, op kinds or (tail length, offset/position, damage kind)); non-trivial = every case except plain valid extensions')
 ASSUMPTIONS = ['sim network = class-constant overrides only (max_target 2^255-1, mined genesis, generated checkpoint for chunk 0)',
                'reference retarget rule transcribed from lbrycrd src/lbry.cpp with exact integer arithmetic; cross-checked on the 20 real main-net headers',
-               'a crash is modelled by its effect on the file (cut at byte b / header bytes overwritten); the real close() writes the whole buffer in place']
+               'a crash is modelled by its effect on the file (cut at byte b / header bytes overwritten); the real close() writes the whole buffer in place',
+               'chunks family: the 4000 headers below the last generated checkpoint link and carry constant bits but are not mined (a checkpointed chunk is '
+               'authenticated by its hash only, nothing validates proof of work there); the 3 headers connected above them are mined and fully valid']
 REQUIRED_HITS = ['V1.valid_batch_stored', 'V2.invalid_batch_checked', 'V2.rule.link', 'V2.rule.bits', 'V2.rule.pow', 'V2.rule.genesis', 'V2.bits_other_encoding_of_the_right_target',
                  'V3.chain_validated', 'V4.genuine', 'V4.overlong_reply', 'V4.mismatch', 'V4.uncheckpointed', 'V5.retarget_checked', 'V5.clamp_low', 'V5.clamp_high',
                  'op.fork', 'op.fork_shorter_than_old_tail', 'op.extend_stale_tail', 'op.split', 'op.reconnect', 'op.beyond_tip', 'mainnet.accepted', 'mainnet.alteration_rejected',
-                 'W.cut_checked', 'W.overwrite_checked', 'W.cut_mid_header', 'W.damage.tip', 'W.damage.interior', 'W.damage.deep_below_tip', 'W.real_persist', 'W.session_reopened', 'W.session_closed', 'W.session_fork_below_size_at_open']
+                 'W.cut_checked', 'W.overwrite_checked', 'W.cut_mid_header', 'W.damage.tip', 'W.damage.interior', 'W.damage.deep_below_tip', 'W.real_persist', 'W.session_reopened', 'W.session_closed', 'W.session_fork_below_size_at_open',
+                 'op.replay_replaced_tail', 'op.replay_behind_fork_tip', 'op.replay_then_header_on_top', 'V4.restart_checked', 'V4.restart_hole_above_held_chunk',
+                 'V4.restart_cut_inside_checkpointed_region', 'V4.restart_held_chunk_compared', 'V4.restart_served_checked', 'V4.restart_batch_on_top_connected',
+                 'V2.link_one_bit_off']
 MAXT = (1 << 255) - 1
 HS = 112
+NCK = 4          # checkpointed chunks of the multi-checkpoint class (chunks family)
 _S = {}
 
 
@@ -79,6 +92,7 @@ def shard_setup(rec, tier):
     k, rule = R.validate_chain(_S['bytes'], len(chain), MAXT, _S['genesis'])
     assert k is None, (k, rule)
     _S['tmp'] = tempfile.mkdtemp(prefix='verif-c07-')
+    _S['multi_seed'] = r.getrandbits(48)
 
     class SimHeaders(Headers):
         max_target = MAXT
@@ -134,6 +148,10 @@ def gen_cases(rng, tier, shard, nshards):
     fams.append(deep)
     # several sessions on one real header file (added after seeded break C07-F: close() that only rewrites "what changed")
     fams.append([{'fam': 'sessions', 'seed': rng.getrandbits(48), 'ck': i % 2 == 1} for i in range(3 if q else 60)])
+    # added after seeded breaks C07-I / C07-J and for own mutant C07-8 (drawn last so that the descriptors of the older families stay what they were; placed early)
+    fams.insert(1, [{'fam': 'replay', 'seed': rng.getrandbits(48)} for _ in range(3 if q else 60)])
+    fams.insert(2, [{'fam': 'chunks', 'seed': rng.getrandbits(48), 'histories': 8 if q else 12} for _ in range(2 if q else 40)])
+    fams.insert(3, [{'fam': 'nearlink', 'seed': rng.getrandbits(48)} for _ in range(1 if q else 12)])
     # round-robin so that every family is reached early even when the budget is cut short on a loaded machine
     weights = {'overwrite': 12}
     while any(fams):
@@ -157,8 +175,9 @@ def _buf(h):
     return bytes(h.io.getvalue())
 
 
-async def _connect_op(rec, hdrs, start, batch, label, genesis, max_target=MAXT):
-    """one connect() call under the V1/V2/V3 monitor. returns added (or None)."""
+async def _connect_op(rec, hdrs, start, batch, label, genesis, max_target=MAXT, cls=''):
+    """one connect() call under the V1/V2/V3 monitor. returns added (or None).  cls: input class appended to the V2 mechanism keys."""
+    cls = '/' + cls if cls else ''
     pre, pre_len = _buf(hdrs), len(hdrs)
     added, exc = None, None
     try:
@@ -190,12 +209,12 @@ async def _connect_op(rec, hdrs, start, batch, label, genesis, max_target=MAXT):
         rec.hit('V2.rule.' + rule)
         cut = (start + k) * HS
         if post[cut:] != pre[cut:]:
-            rec.violation(f'C07/V2/stored-at-or-beyond-first-invalid/{rule}',
+            rec.violation(f'C07/V2/stored-at-or-beyond-first-invalid/{rule}{cls}',
                           f'{label}: batch of {n} at height {start} has its first invalid header at index {k} (rule {rule}) but stored bytes at '
                           f'heights >= {start + k} changed (added={added})', {'start': start, 'n': n, 'k': k, 'rule': rule, 'added': added})
             return None
         if added is not None and added > k:
-            rec.violation(f'C07/V2/reported-more-than-valid-prefix/{rule}', f'{label}: connect returned added={added} > valid prefix {k}',
+            rec.violation(f'C07/V2/reported-more-than-valid-prefix/{rule}{cls}', f'{label}: connect returned added={added} > valid prefix {k}',
                           {'start': start, 'k': k, 'added': added})
             return None
         if post[:start * HS] != pre[:start * HS]:
@@ -395,6 +414,111 @@ async def _fam_connect(rec, case):
              sample={'family': 'connect', 'checkpointed': case['ck'], 'ops': kinds, 'final_len': len(hdrs), 'E': E})
 
 
+async def _fam_replay(rec, case):
+    """(added after seeded break C07-I) connect() never truncates, so after a valid fork that ends below the stored length the headers
+    of the replaced branch stay stored above the fork's end.  A server that sends those replaced headers AGAIN at their old heights
+    (alone from the fork's end on, behind the stored tip of the fork, followed by a header mined on top of them) supplies a batch whose
+    first such header does not link to what is stored below it: however familiar the bytes are, nothing from it on may be counted or
+    stored.  `top` is the harness's own record of the last header connected at every height, `J` the end of the valid chain."""
+    r = random.Random(case['seed'])
+    chain, genesis = _S['chain'], _S['genesis']
+    hdrs = _S['Sim'](':memory:')
+    await hdrs.open()
+    L = r.choice([12, 30, 75, 140])
+    if await _connect_op(rec, hdrs, 0, b''.join(chain[:L]), 'base', genesis) != L:
+        return
+    top = list(chain[:L])
+    J = E = L
+    replays = ['at-fork-end', 'behind-fork-tip', 'then-header-on-top']
+    todo = list(replays)
+    r.shuffle(todo)
+    todo += [r.choice(replays + ['continue-fork', 'continue-fork', 'shorter-fork', 'reconnect']) for _ in range(r.randrange(2, 7))]
+    kinds = []
+    CLS = 'replaced-branch-replayed-after-shorter-fork'
+    while todo and not rec.out_of_time():
+        op = todo.pop(0)
+        if J >= len(top) and op != 'shorter-fork':
+            todo.insert(0, op)          # nothing of a replaced branch is stored (any more): make a shorter fork first
+            op = 'shorter-fork'
+        kinds.append(op)
+        model = b''.join(top)
+        if op == 'shorter-fork':
+            f = r.randrange(max(1, J - 12), J)
+            if len(top) - f < 2:
+                f -= 1
+            m = r.randrange(1, min(len(top) - f, 9))
+            branch = build_chain(r, m, chain=top[:J], fork_at=f)[f:]
+            start, added = f, await _connect_op(rec, hdrs, f, b''.join(branch), op, genesis)
+            if added != m:
+                break
+            rec.hit('op.replay_shorter_fork')
+            top[f:f + m] = branch
+            J = f + m
+        elif op in ('continue-fork', 'reconnect'):
+            start = J if op == 'continue-fork' else r.randrange(max(1, J - 6), J)
+            batch = build_chain(r, r.choice([1, 2, 3]), chain=top[:J], fork_at=J)[J:] if op == 'continue-fork' else top[start:J]
+            added = await _connect_op(rec, hdrs, start, b''.join(batch), op + '-with-replaced-branch-stored-above', genesis)
+            if added != len(batch):
+                break
+            top[start:start + len(batch)] = batch
+            J = start + len(batch)
+        else:
+            j = 0 if op == 'at-fork-end' else r.randrange(1, min(J - 1, 4) + 1) if op == 'behind-fork-tip' else min(J - 1, r.choice([0, 0, 1, 2]))
+            n = r.randrange(1, len(top) - J + 1)
+            batch = top[J - j:J + n]
+            if op == 'then-header-on-top':
+                # mined to be valid on top of the replaced branch (bits and proof of work follow from ITS last two headers)
+                batch = top[J - j:] + build_chain(r, r.choice([1, 2]), chain=top, fork_at=len(top))[len(top):]
+            start = J - j
+            k, rule = R.first_invalid(model, start, b''.join(batch), MAXT, genesis)
+            if (k, rule) != (j, 'link'):
+                raise RuntimeError(f'harness: replayed batch expected to stop linking at index {j}, reference says {k} {rule}')
+            rec.hit('op.replay_replaced_tail')
+            rec.hit({'at-fork-end': 'op.replay_from_fork_end', 'behind-fork-tip': 'op.replay_behind_fork_tip', 'then-header-on-top': 'op.replay_then_header_on_top'}[op])
+            added = await _connect_op(rec, hdrs, start, b''.join(batch),
+                                      f'replaced branch [{J},{len(top)}) replayed {op} after a fork that ended at {J}: batch of {len(batch)} at {start}',
+                                      genesis, cls=CLS)
+        if added:
+            E = start + added
+        if _buf(hdrs) != b''.join(top):
+            break       # a violation was reported by the monitor above; the model no longer describes what is stored
+        rec.hit('V3.chain_validated')
+        k, rule = R.validate_chain(_buf(hdrs), E, MAXT, genesis)
+        if k is not None:
+            rec.violation(f'C07/V3/stored-chain-invalid/{rule}/{CLS}', f'after {op}: stored chain [0,{E}) up to the end of the most recently '
+                          f'connected batch is invalid at height {k} (rule {rule}); valid chain ends at {J}, stored length {len(hdrs)}',
+                          {'E': E, 'k': k, 'J': J, 'ops': kinds[-6:]})
+            break
+    rec.case(['replay', L, kinds], nontrivial=True, sample={'family': 'replay', 'ops': kinds, 'valid_end': J, 'stored_len': len(hdrs)})
+
+
+async def _fam_nearlink(rec, case):
+    """a header that is valid in every respect (retarget bits, proof of work mined for it) except that ONE BIT of its previous-block hash is
+    off, for each of the 32 bytes of that field in turn: the link rule compares the whole hash (own mutant C07-8 compared a part of it and
+    was only met by luck through the random alterations of the connect family, whose altered headers rarely keep their proof of work)."""
+    r = random.Random(case['seed'])
+    chain, genesis = _S['chain'], _S['genesis']
+    # cheap to mine: the height with the easiest target among a few candidates
+    h, target = max(((x, R.next_target(MAXT, R.unpack(chain[x - 2]), R.unpack(chain[x - 1]))) for x in r.sample(range(2, 600), 8)), key=lambda t: t[1])
+    hd = _S['Sim'](':memory:')
+    await hd.open()
+    if await hd.connect(0, b''.join(chain[:h])) != h:
+        raise RuntimeError('harness: prefix of the base chain rejected')
+    hdr = R.unpack(chain[h])
+    for byte in range(32):
+        if rec.out_of_time():
+            break
+        prev = bytearray(hdr['prev'])
+        prev[byte] ^= 1 << r.randrange(8)
+        raw = R.mine(hdr['version'], bytes(prev), r.randbytes(32), hdr['claimtrie'], hdr['timestamp'], hdr['bits'], min(target, R.compact_to_target(hdr['bits'])),
+                     start_nonce=r.getrandbits(30))
+        batch = raw + (b''.join(chain[h + 1:h + 3]) if byte % 4 == 3 else b'')
+        rec.hit('V2.link_one_bit_off')
+        if await _connect_op(rec, hd, h, batch, f'valid-except-one-bit-of-the-previous-hash (byte {byte} of the field)', genesis, cls='previous-hash-one-bit-off') != 0:
+            break
+    rec.case(['nearlink', h], sample={'family': 'nearlink', 'height': h, 'target': hex(target)[:20] + '..'})
+
+
 async def _fam_pow_sliver(rec, case):
     """a header whose bits are exactly right and whose PoW hash lies BETWEEN the target decoded from those bits (what consensus
     compares with) and the full-precision retarget value (what the library compares with): it does not meet its target."""
@@ -530,6 +654,205 @@ async def _fam_checkpoint(rec, case):
                 rec.violation(f'C07/V4/non-matching-chunk-stored/{mode}', f'chunk ({mode}) not hashing to the checkpoint changed stored bytes '
                               f'or the missing set', {'mode': mode, 'height': height, 'missing_after': sorted(post_missing)})
         rec.case(['checkpoint', mode, height // 100], sample={'family': 'checkpoint', 'mode': mode, 'height': height, 'raised': repr(exc)})
+
+
+def _multi():
+    """built once per shard on first use: NCK checkpointed chunks of linked headers (not mined, see ASSUMPTIONS), 3 mined headers that
+    are valid on top of them, the class with the generated checkpoints and the honest server's replies."""
+    if 'multi' in _S:
+        return _S['multi']
+    r = random.Random(_S['multi_seed'])
+    bits = R.target_to_compact(1 << 247)       # with 143..157 s between blocks the retarget rule leaves the target where it is
+    truth, prev, ts = [], b'\x00' * 32, 1_500_000_000
+    for _ in range(NCK * 1000):
+        ts += r.randrange(143, 158)
+        truth.append(R.pack(1, prev, r.randbytes(32), r.randbytes(32), ts, bits, r.getrandbits(32)))
+        prev = R.header_hash(truth[-1])
+    tail = build_chain(r, 3, chain=truth, fork_at=len(truth))[len(truth):]
+    data = b''.join(truth)
+    k, rule = R.first_invalid(data, len(truth), b''.join(tail), MAXT, None)
+    assert k is None, ('reference rejects the headers mined on top of the checkpointed region', k, rule)
+    chunks = [data[c * 1000 * HS:(c + 1) * 1000 * HS] for c in range(NCK)]
+
+    class SimHeadersMulti(_S['Sim']):
+        genesis_hash = R.header_hash_hex(truth[0]).encode()
+        checkpoints = {c * 1000: R.sha256d(chunks[c])[::-1].hex() for c in range(NCK)}
+
+    def serve(chunk):
+        c = zlib.compressobj(wbits=-15)
+        return {'base64': base64.b64encode(c.compress(chunk) + c.flush()).decode()}
+    _S['multi'] = {'cls': SimHeadersMulti, 'truth': truth, 'data': data, 'chunks': chunks, 'tail': b''.join(tail),
+                   'replies': [serve(c) for c in chunks] + [serve(b'')]}
+    return _S['multi']
+
+
+def _chunk_class(c, fetched, cut):
+    """input class of checkpointed chunk c, from what the harness itself did to the file"""
+    if c not in fetched:
+        return 'never-downloaded-hole'
+    if cut is not None and cut < (c + 1) * 1000 * HS:
+        return 'chunk-cut-by-crash' if cut > c * 1000 * HS else 'chunk-above-the-crash-cut'
+    return 'downloaded-chunk'
+
+
+def _judge_chunks(rec, r, M, h, label, fetched, cut, shape, witness):
+    """V4 at a restart: a chunk the object regards as held (not flagged missing, has_header() true) IS the checkpointed chunk;
+    W2: a downloaded chunk that no crash touched is still held."""
+    buf, missing = _buf(h), set(h.known_missing_checkpointed_chunks)
+    ok = True
+    for c in range(NCK):
+        seg = buf[c * 1000 * HS:(c + 1) * 1000 * HS]
+        cls = _chunk_class(c, fetched, cut)
+        if c * 1000 not in missing or h.has_header(c * 1000 + r.randrange(1000)):
+            rec.hit('V4.restart_held_chunk_compared')
+            if seg != M['chunks'][c]:
+                d = next((i for i in range(min(len(seg), 1000 * HS)) if seg[i] != M['chunks'][c][i]), len(seg)) // HS
+                rec.violation(f'C07/V4/chunk-regarded-as-held-at-restart-is-not-the-checkpointed-one/{cls}',
+                              f'{label}: chunk {c * 1000} is not flagged missing (has_header() answers True, nothing will be fetched) but what is stored there '
+                              f'does not hash to its checkpoint: first differing header {c * 1000 + d} is '
+                              f'{"all zero" if not any(seg[d * HS:(d + 1) * HS]) else "not the checkpointed one"}'
+                              f'; flagged missing: {sorted(missing)}', dict(witness, chunk=c * 1000, missing=sorted(missing)))
+                ok = False
+        elif cls == 'downloaded-chunk' and (cut is None or cut % HS == 0 or len(fetched) == NCK):
+            rec.violation(f'C07/W2/downloaded-chunk-flagged-missing-at-restart/{shape}',
+                          f'{label}: chunk {c * 1000} was downloaded, matched its checkpoint and lies wholly below any cut, but is flagged missing',
+                          dict(witness, chunk=c * 1000, missing=sorted(missing)))
+            ok = False
+        elif cls == 'downloaded-chunk':
+            # a cut inside a header makes open() run the link-based repair from genesis, which stops at the first hole: not judged
+            rec.log('chunks.cut_mid_header_dropped_downloaded_chunks_below_the_cut')
+    return ok
+
+
+async def _fam_chunks(rec, case):
+    """(added after seeded break C07-J) several checkpointed chunks, only some of them on disk at a restart: the background download goes
+    from the tip down, on-demand look-ups fetch single chunks below it (holes stay above a held chunk), a crash may cut the file inside the
+    checkpointed region (open() zero-fills up to the last checkpoint).  At the restart every chunk that is regarded as held must be the
+    checkpointed one, the headers then served (honest server attached) are the true ones, a valid batch on top is stored whole, and a
+    second restart holds everything that was fetched."""
+    r = random.Random(case['seed'])
+    M = _multi()
+    Multi, truth, top = M['cls'], M['truth'], NCK * 1000
+    path = os.path.join(_S['tmp'], 'chunks-%d' % case['seed'])
+    shapes = []
+    for hi in range(case['histories']):
+        if rec.out_of_time():
+            break
+        # ---- what the first run downloads and where a crash cuts the file afterwards
+        if hi == 0:
+            bg = r.randrange(0, NCK - 1)                                  # a look-up below the background frontier, hole(s) between
+            lookups = [r.randrange(0, NCK - bg - 1) * 1000 + r.randrange(1000)]
+            cut = None
+        elif hi == 1:
+            bg, lookups = NCK, []                                         # everything downloaded, cut inside a chunk above a complete one
+            cut = r.randrange(1000, top) * HS + r.choice([0, 0, r.randrange(1, HS)])
+        else:
+            bg = r.choice([0, 1, 1, 2, NCK - 1, NCK])
+            lookups = [r.randrange(top) for _ in range(r.choice([0, 1, 1, 2, 3]))]
+            cut = None
+            if r.random() < 0.5:
+                cut = r.choice([r.randrange(1, top) * HS, r.randrange(1, top) * HS, r.randrange(0, top) * HS + r.randrange(1, HS),
+                                r.randrange(1, NCK) * 1000 * HS + r.choice([-1, 0, 1]), r.randrange(0, HS + 1)])
+        asked = []
+
+        async def getter(start):
+            asked.append(start)
+            await asyncio.sleep(0)
+            return M['replies'][min(start // 1000, NCK)]
+        if os.path.exists(path):
+            os.unlink(path)
+        wit = {'background_chunks_from_tip': bg, 'lookups': lookups, 'cut_byte': cut}
+        # ---- first run
+        h = Multi(path)
+        await h.open()
+        try:
+            if not _judge_chunks(rec, r, M, h, 'fresh file', set(), None, 'fresh', wit):
+                return
+            h.chunk_getter = getter
+            for c in range(NCK - 1, NCK - 1 - bg, -1):
+                await h.ensure_chunk_at(c * 1000)
+            for x in lookups:
+                if await h.get_raw_header(x) != truth[x]:
+                    rec.violation('C07/V4/served-header-is-not-the-checkpointed-one/first-run', f'first run: header {x} served after the on-demand fetch '
+                                  f'is not the checkpointed one', dict(wit, height=x))
+                    return
+            stored = _buf(h)
+        finally:
+            await h.close()
+        fetched = {s // 1000 for s in asked}
+        with open(path, 'rb') as f_:
+            disk = f_.read()
+        if disk != stored or any(disk[c * 1000 * HS:(c + 1) * 1000 * HS] != M['chunks'][c] for c in fetched):
+            rec.violation('C07/W/persisted-file-differs/partly-downloaded-checkpointed-region',
+                          f'first run fetched chunks {sorted(fetched)}: after close() the file ({len(disk)} bytes) is not the buffer / does not hold them', wit)
+            return
+        if cut is not None:
+            _write_file(path, disk[:cut])
+        good = {c for c in fetched if _chunk_class(c, fetched, cut) == 'downloaded-chunk'}
+        if any(a in good and b not in good for a in range(NCK) for b in range(a + 1, NCK)):
+            rec.hit('V4.restart_hole_above_held_chunk')
+        if cut is not None and cut < top * HS:
+            rec.hit('V4.restart_cut_inside_checkpointed_region')
+            if cut % HS:
+                rec.hit('V4.restart_cut_mid_header')
+        shape = ('partly-downloaded' if len(fetched) < NCK else 'complete') + ('' if cut is None else '+cut-at-header-boundary' if cut % HS == 0 else '+cut-mid-header')
+        shapes.append(shape)
+        label = (f'restart on a file where the first run fetched chunks {sorted(c * 1000 for c in fetched)}' +
+                 (f', then cut at byte {cut} (header {cut // HS})' if cut is not None else ''))
+        # ---- restart
+        asked.clear()
+        h = Multi(path)
+        await h.open()
+        connected = False
+        try:
+            rec.hit('V4.restart_checked')
+            if not _judge_chunks(rec, r, M, h, label, fetched, cut, shape, wit):
+                return
+            h.chunk_getter = getter
+            if hi % 2 == 0 and len(h) == top:
+                # the chain pinned down by the checkpoints is extended by a fully valid batch (its predecessors are read from the top chunk)
+                added, exc = None, None
+                try:
+                    added = await h.connect(top, M['tail'])
+                except Exception as e:  # noqa  judged below
+                    exc = e
+                rec.hit('V4.restart_batch_on_top_connected')
+                if added != 3 or _buf(h)[top * HS:] != M['tail']:
+                    rec.violation(f'C07/V1/valid-batch-above-checkpointed-region-not-stored-whole/top-chunk-{_chunk_class(NCK - 1, fetched, cut)}',
+                                  f'{label}: 3 valid headers linking to the last checkpointed header returned added={added}'
+                                  f'{" raised " + type(exc).__name__ if exc else ""}', dict(wit, added=added, exc=repr(exc)))
+                    return
+                connected = True
+            for x in sorted({c * 1000 + o for c in range(NCK) for o in (0, 999)} | {r.randrange(top) for _ in range(6)}):
+                try:
+                    raw = await h.get_raw_header(x)
+                except Exception as e:  # noqa  nothing served: logged
+                    rec.log('chunks.get_raw_header_raised.' + type(e).__name__)
+                    continue
+                rec.hit('V4.restart_served_checked')
+                if raw != truth[x]:
+                    rec.violation(f'C07/V4/served-header-is-not-the-checkpointed-one/{_chunk_class(x // 1000, fetched, cut)}',
+                                  f'{label}: with an honest server attached, get_raw_header({x}) serves '
+                                  f'{"an all-zero header" if not any(raw) else "a header that is not the checkpointed one"} '
+                                  f'(server was asked for chunks {sorted(asked)})', dict(wit, height=x, asked=sorted(asked)))
+                    return
+            stored = _buf(h)
+        finally:
+            await h.close()
+        # ---- second restart: everything fetched by now (and the batch on top) is held
+        fetched2 = good | {s // 1000 for s in asked if s < top}
+        label += ', headers served, second restart'
+        h = Multi(path)
+        await h.open()
+        rec.hit('V4.second_restart_checked')
+        if not _judge_chunks(rec, r, M, h, label, fetched2, None, 'second-restart', wit):
+            return
+        if len(fetched2) == NCK and not _judge_reopen(rec, label, 'chunks/second-restart', len(h), _buf(h), set(h.known_missing_checkpointed_chunks), stored,
+                                                     top + (3 if connected else 0), wit):
+            return
+    if os.path.exists(path):
+        os.unlink(path)
+    rec.case(['chunks', shapes], nontrivial=True, sample={'family': 'chunks', 'histories': shapes})
 
 
 async def _fam_retarget(rec, case):
